@@ -146,8 +146,10 @@ Fixpoint dict_get {V} (k : Z) (l : list (Z * V)) : option V :=
                     end
   end.
 
+(* `allowed_alleles`; a tuple produced by zip( *superreads ) has one allele per super-read, so it is
+   never empty: the empty list is not a valid entry of t_super and is ignored *)
 Definition allowed (c : cfg) (ph : list nat) : bool :=
-  mav c || forallb (fun a => (a <=? 1)%nat) ph.
+  negb (length ph =? 0)%nat && (mav c || forallb (fun a => (a <=? 1)%nat) ph).
 
 (* sample_phases[sample].get(pos) (sample_genotypes has the same keys) *)
 Definition phase_at (c : cfg) (t : target) (p : Z) : option (list nat) :=
@@ -174,14 +176,11 @@ Definition unphase_call (c : call) : call :=
 Definition cur_rm (tg : tagk) (c : call) : call :=
   match tg with TagPS => unphase_call c | TagHP => c end.
 
-(* repaired: unphase for both tags and clear the phase fields of the other encoding *)
+(* repaired: for either tag remove every phase statement of the call (GT unphased and sorted, PS, HP, PQ) *)
 Definition clear_hp (c : call) : call :=
   match hp c with None => c | Some _ => set_hp c (Some [HPdot]) end.
 Definition fix_rm (tg : tagk) (c : call) : call :=
-  match tg with
-  | TagPS => set_pq (clear_hp (unphase_call c)) None
-  | TagHP => set_pq (set_ps (unphase_call c) None) None
-  end.
+  set_pq (clear_hp (set_ps (unphase_call c) None)) None.
 
 Definition cur_rules : rules := mkRules cur_rm as_vector [HPnone].
 Definition fix_rules : rules := mkRules fix_rm (fun g => g) [HPdot].
@@ -773,3 +772,144 @@ Definition unphase_step_call (c : call) : call :=
   end.
 Definition unphase_step (end_decl : bool) (r : vrec) : vrec :=
   sync_end end_decl (set_calls r (map unphase_step_call (calls r)) false).
+
+(* ---------------------------------------------------------------- specification side (C09) *)
+Definition target_of (ts : list target) (i : nat) : option target :=
+  find (fun t => Nat.eqb (t_sample t) i) ts.
+
+(* what the run states about sample column i at position p, read off the writer's *inputs*:
+   (phase set id, haplotype alleles) iff the position has a component, an allowed super-read column
+   and that column is heterozygous *)
+Definition written (cf : cfg) (ts : list target) (i : nat) (p : Z) : option (Z * list nat) :=
+  match target_of ts i with
+  | None => None
+  | Some t =>
+    match phase_at cf t p, dict_get p (t_comp t) with
+    | Some ph, Some c => if is_homozygous (sort_asc ph) then None else Some (c + 1, ph)
+    | _, _ => None
+    end
+  end.
+
+Definition phase_matches (d : option dphase) (e : option (Z * list nat)) : bool :=
+  match d, e with
+  | None, None => true
+  | Some x, Some (b, ph) => opt_eqb Z.eqb (block x) (Some b) && list_eqb allele_eqb (alleles x) (map Some ph)
+  | _, _ => false
+  end.
+
+Definition plan_targets (plan : list (token * list target)) (c : token) : list target :=
+  match find (fun e => fst e =? c) plan with Some e => snd e | None => [] end.
+
+(* [decodes]: in the tables read back from the output, every target sample's phase at every row is
+   exactly what was written (and nothing where nothing was written) *)
+Definition table_decodes (cf : cfg) (ts : list target) (rows : list row) : bool :=
+  forallb (fun rw => forallb (fun t =>
+     phase_matches (nth (t_sample t) (row_phases rw) None) (written cf ts (t_sample t) (row_pos rw))) ts) rows.
+Definition file_decodes (cf : cfg) (plan : list (token * list target)) (tabs : list (token * list row)) : bool :=
+  forallb (fun tb => table_decodes cf (plan_targets plan (fst tb)) (snd tb)) tabs.
+
+(* phase qualities of target samples stem from the run too (whatshap writes none) *)
+Definition file_quality_fresh (plan : list (token * list target)) (tabs : list (token * list row)) : bool :=
+  forallb (fun tb => forallb (fun rw => forallb (fun t =>
+     match nth (t_sample t) (row_phases rw) None with Some d => match quality d with None => true | Some _ => false end
+                                                    | None => true end) (plan_targets plan (fst tb))) (snd tb)) tabs.
+
+(* [equivalent]: two read-backs agree on block ids and haplotype alleles of the target samples *)
+Definition dphase_sim (a b : option dphase) : bool :=
+  match a, b with
+  | None, None => true
+  | Some x, Some y => opt_eqb Z.eqb (block x) (block y) && list_eqb allele_eqb (alleles x) (alleles y)
+  | _, _ => false
+  end.
+Definition tables_equiv (plan : list (token * list target)) (a b : list (token * list row)) : bool :=
+  all2 (fun ta tb => (fst ta =? fst tb) &&
+     all2 (fun ra rb => (row_pos ra =? row_pos rb) &&
+        forallb (fun t => dphase_sim (nth (t_sample t) (row_phases ra) None) (nth (t_sample t) (row_phases rb) None))
+                (plan_targets plan (fst ta))) (snd ta) (snd tb)) a b.
+
+(* [no stale phase]: on the output *records* (also those a reader skips) each decodable phase statement
+   of a target call -- the HP statement and the GT/PS statement separately -- is what this run wrote *)
+Definition stmt_ok (d : res (option dphase)) (e : option (Z * list nat)) : bool :=
+  match d with Ok None => true | Ok (Some x) => phase_matches (Some x) e | Err _ => false end.
+Definition call_no_stale (guard : list hpitem -> bool) (pskey : bool) (c : call) (e : option (Z * list nat)) : bool :=
+  stmt_ok (decode_HP guard c) e && stmt_ok (decode_PS pskey c) e.
+Fixpoint run_no_stale (guard : list hpitem -> bool) (cf : cfg) (ts : list target) (prev : option Z)
+  (inp out : list vrec) : bool :=
+  match inp, out with
+  | r :: inp', o :: out' =>
+    let sk := skip cf ts prev r in
+    forallb (fun t => match nth_error (calls o) (t_sample t) with
+                      | Some c => call_no_stale guard (ps_key o) c
+                                    (match sk with Some _ => None | None => written cf ts (t_sample t) (pos r) end)
+                      | None => true end) ts
+    && run_no_stale guard cf ts (match sk with Some _ => prev | None => Some (pos r) end) inp' out'
+  | _, _ => true
+  end.
+Fixpoint file_no_stale (guard : list hpitem -> bool) (cf : cfg) (plan : list (token * list target))
+  (inp out : list vrec) : bool :=
+  match plan with
+  | [] => true
+  | (c, ts) :: more =>
+    let '(run, tl) := take_run c inp in
+    run_no_stale guard cf ts None run (firstn (length run) out)
+    && file_no_stale guard cf more tl (skipn (length run) out)
+  end.
+
+(* [reproduces]: every phase set of `orig` (sample i) with at least two rows that are heterozygous
+   in `base` lies in one phase set of `re` with the same or the globally flipped alleles *)
+Definition het_in (base : list row) (i : nat) (p : Z) : bool :=
+  existsb (fun rw => (row_pos rw =? p) &&
+                     let g := nth i (row_gts rw) [] in (length g =? 2)%nat && negb (is_homozygous g)) base.
+Definition phase_at_row (rows : list row) (i : nat) (p : Z) : option dphase :=
+  match find (fun rw => row_pos rw =? p) rows with Some rw => nth i (row_phases rw) None | None => None end.
+Definition flip2 (l : list allele) : list allele := rev l.
+Definition block_members (base orig : list row) (i : nat) (b : option Z) : list (Z * list allele) :=
+  flat_map (fun rw => match nth i (row_phases rw) None with
+                      | Some d => if oz_eqb (block d) b && het_in base i (row_pos rw)
+                                     && (length (nth i (row_gts rw) []) =? 2)%nat
+                                     && negb (is_homozygous (nth i (row_gts rw) []))
+                                  then [(row_pos rw, alleles d)] else []
+                      | None => [] end) orig.
+Definition block_reproduced (re : list row) (i : nat) (ms : list (Z * list allele)) : bool :=
+  match ms with
+  | [] | [_] => true
+  | (p0, _) :: _ =>
+    match phase_at_row re i p0 with
+    | None => false
+    | Some d0 =>
+      forallb (fun m => match phase_at_row re i (fst m) with
+                        | Some d => oz_eqb (block d) (block d0) | None => false end) ms
+      && (forallb (fun m => match phase_at_row re i (fst m) with
+                            | Some d => list_eqb allele_eqb (alleles d) (snd m) | None => false end) ms
+          || forallb (fun m => match phase_at_row re i (fst m) with
+                               | Some d => list_eqb allele_eqb (alleles d) (flip2 (snd m)) | None => false end) ms)
+    end
+  end.
+Definition sample_blocks (orig : list row) (i : nat) : list (option Z) :=
+  fold_right (fun rw acc => match nth i (row_phases rw) None with
+                            | Some d => if existsb (oz_eqb (block d)) acc then acc else block d :: acc
+                            | None => acc end) [] orig.
+Definition reproduces (base orig re : list row) (i : nat) : bool :=
+  forallb (fun b => block_reproduced re i (block_members base orig i b)) (sample_blocks orig i).
+Definition tables_reproduce (samples : list nat) (base orig re : list (token * list row)) : bool :=
+  forallb (fun tb =>
+    let find_tab := fun (l : list (token * list row)) =>
+       match find (fun e => fst e =? fst tb) l with Some e => snd e | None => [] end in
+    forallb (fun i => reproduces (find_tab base) (snd tb) (find_tab re) i) samples) orig.
+
+(* comparison of a read-back with the reader model (L2) *)
+Definition row_eqb (a b : row) : bool :=
+  (row_pos a =? row_pos b) && list_eqb list_nat_eqb (row_gts a) (row_gts b)
+  && list_eqb (opt_eqb dphase_eqb) (row_phases a) (row_phases b).
+Definition err_eqb (a b : err) : bool :=
+  match a, b with
+  | EKey, EKey | EAttr, EAttr | EValue, EValue | EAssert, EAssert | EIndex, EIndex | EMixed, EMixed
+  | EUnsorted, EUnsorted => true
+  | _, _ => false
+  end.
+Definition tables_eqb (a b : res (list (token * list row))) : bool :=
+  match a, b with
+  | Ok x, Ok y => list_eqb (pair_eqb Z.eqb (list_eqb row_eqb)) x y
+  | Err e, Err f => err_eqb e f
+  | _, _ => false
+  end.
